@@ -1,6 +1,7 @@
 package sim
 
 import (
+	"syscall"
 	"runtime"
 	"sync/atomic"
 	"crypto/sha256"
@@ -304,20 +305,29 @@ var watchSpec atomic.Pointer[RunSpec]
 func startWatchdog(onHang func(sp *RunSpec, secs int)) {
 	hangS := envInt("VERIF_HANG_S", 20)
 	go func() {
-		last, since := int64(-1), time.Now()
+		last, since, cpu0 := int64(-1), time.Now(), cpuSeconds()
 		for {
 			time.Sleep(500 * time.Millisecond)
 			hb := heartbeat.Load()
 			sp := watchSpec.Load()
 			if sp == nil || hb != last {
-				last, since = hb, time.Now()
+				last, since, cpu0 = hb, time.Now(), cpuSeconds()
 				continue
 			}
-			if time.Since(since) > time.Duration(hangS)*time.Second {
+			// a busy loop burns CPU; a process that is merely starved on a loaded machine does not: both conditions are required
+			if time.Since(since) > time.Duration(hangS)*time.Second && cpuSeconds()-cpu0 > float64(hangS)/2 {
 				onHang(sp, hangS)
 			}
 		}
 	}()
+}
+
+func cpuSeconds() float64 {
+	var ru syscall.Rusage
+	if err := syscall.Getrusage(syscall.RUSAGE_SELF, &ru); err != nil {
+		return 0
+	}
+	return float64(ru.Utime.Sec+ru.Stime.Sec) + float64(ru.Utime.Usec+ru.Stime.Usec)/1e6
 }
 
 func hangViolation(secs int) Violation {
